@@ -235,9 +235,15 @@ func Uninstall() {
 type unsyncSink struct {
 	n      atomic.Int64
 	closed atomic.Int32
+	failAt int64 // the k-th write is refused (immutable after construction: still no state shared with the capture handles)
 }
 
-func (s *unsyncSink) WriteTo(b []byte, ap netip.AddrPort) error { s.n.Add(1); return nil }
+func (s *unsyncSink) WriteTo(b []byte, ap netip.AddrPort) error {
+	if s.n.Add(1) == s.failAt {
+		return errors.Join(SentinelFor("write"), syscall.EPERM)
+	}
+	return nil
+}
 func (s *unsyncSink) Close() error                              { s.closed.Add(1); return nil }
 
 // template builds the probe the code under test will emit for ttl from the predictable flow identity.
@@ -301,7 +307,13 @@ func (w *Wire) newSink(addr netip.Addr) (packets.Sink, error) {
 	if w.script.Unsync {
 		w.runs++
 		w.goRun[goid()] = w.runs
-		return &unsyncSink{}, nil
+		us := &unsyncSink{}
+		for _, f := range w.script.Faults {
+			if f.Op == "write" {
+				us.failAt = int64(f.K)
+			}
+		}
+		return us, nil
 	}
 	w.runs++
 	run := w.runs
